@@ -919,7 +919,10 @@ func RunJavascript(ctx *Context, bs *Bindings, props map[string]interface{}, src
 				panic(caught) // Something else happened, so repanic!
 			}
 		}()
-		watchdogCleanup := make(chan bool)
+		// Buffered: after a timeout the watchdog goroutine is gone, and
+		// an unbuffered send in the deferred clean-up below would block
+		// the caller forever.
+		watchdogCleanup := make(chan bool, 1)
 		runtime.Interrupt = make(chan func(), 1) // No blocking
 
 		defer func() {
